@@ -104,8 +104,8 @@ fn normalise(res: &RunResult, locs: &LocMap, init_ptr: u64) -> (Vec<String>, Vec
     let mut tail = Vec::new();
     match &res.outcome {
         Outcome::Done => {}
-        Outcome::Unstuck(_) | Outcome::Deadlock => tail.push(Obj::new("deadlock").int("t", 0).int("d", 0).done()),
-        Outcome::Livelock | Outcome::StepLimit => tail.push(Obj::new("livelock").int("t", 0).int("d", 0).done()),
+        Outcome::Unstuck(_) | Outcome::Deadlock => tail.push(Obj::new("deadlock").int("t", 0).int("d", 0).int("hdepth", res.stuck.iter().map(|s| s.1 as i64).max().unwrap_or(0)).done()),
+        Outcome::Livelock | Outcome::StepLimit => tail.push(Obj::new("livelock").int("t", 0).int("d", 0).int("hdepth", res.stuck.iter().map(|s| s.1 as i64).max().unwrap_or(0)).done()),
         Outcome::Aborted(r) => tail.push(Obj::new("aborted").int("t", 0).int("d", 0).str("why", r).done()),
     }
     for (i, m) in &res.panics {
